@@ -59,6 +59,11 @@ STRUCTS = {
     "bccFM": ("bcc", [("X", (0, 0, 0))], [(0, 0, 1)]),
     "afm": ("sc", [("X", (0, 0, 0)), ("X", (0.5, 0.5, 0.5))], [(0, 0, 1), (0, 0, -1)]),
     "zbFM": ("fcc", [("Ga", (0, 0, 0)), ("As", (0.25, 0.25, 0.25))], [(1, 1, 1), (0, 0, 0)]),
+    # triclinic cell doubled by the magnetic order: the magnetic group is {E, T*(E|1/2,0,0)} -- the two sublattices are
+    # related ONLY by an operation that contains time reversal
+    # related ONLY by an operation that contains time reversal (the non-magnetic Y atoms remove the inversion centres)
+    "triAFM": ("tric", [("X", (0.11, 0.17, 0.23)), ("X", (0.61, 0.17, 0.23)), ("Y", (0.31, 0.62, 0.71)), ("Y", (0.81, 0.62, 0.71))],
+               [(0.3, 0.4, 1.5), (-0.3, -0.4, -1.5), (0, 0, 0), (0, 0, 0)]),
     # trigonal tellurium (P3_121: screw axis, C2 sites) -- the structure of the repository's own Te_sparse fixture
     "te": ("hex", [("Te", (0.269, 0.0, 1 / 3)), ("Te", (0.731, 0.731, 0.0)), ("Te", (0.0, 0.269, 2 / 3))], None),
 }
@@ -73,6 +78,7 @@ PROJS = {
     "bccFM": [["X:s"], ["X:p"], ["X:t2g"], ["X:eg"]],
     "afm": [["X:s"], ["X:p"]],
     "zbFM": [["Ga:s", "As:s"], ["Ga:s", "As:p"], ["Ga:sp3", "As:sp3"]],
+    "triAFM": [["X:s"], ["X:s", "Y:s"], ["X:p"], ["X:s", "Y:p"]],
     "te": [["Te:s"], ["Te:p"], ["Te:s", "Te:p"]],
 }
 
@@ -86,6 +92,7 @@ QUICK_PROJS = {
     "bccFM": [["X:p"], ["X:eg"]],
     "afm": [["X:s"], ["X:p"]],
     "zbFM": [["Ga:s", "As:s"]],
+    "triAFM": [["X:s"], ["X:s", "Y:s"]],
     "te": [["Te:p"]],
 }
 
@@ -93,7 +100,7 @@ KPOINTS = [(0.123, -0.271, 0.389), (0.31, 0.47, -0.09), (0.5, 0.2, 0.0)]
 
 
 def magname(case):
-    return {"bccFM": "ferro", "zbFM": "ferro", "afm": "afm"}.get(case["struct"], "none")
+    return {"bccFM": "ferro", "zbFM": "ferro", "afm": "afm", "triAFM": "afm_T_tau_only"}.get(case["struct"], "none")
 
 
 def projkey(proj):
@@ -125,8 +132,9 @@ def _cases(tier, seed):
     for st, (lat, atoms, mag) in STRUCTS.items():
         for proj in table[st]:
             for soc in (False, True):
-                if mag is not None and not soc:
-                    continue  # magnetic order is only meaningful for spinors
+                if mag is not None and not soc and quick and st not in ("afm", "triAFM"):
+                    continue  # scalar Wannier functions in a magnetic group: quick tier only the antiferromagnet (T combined
+                    #           with a translation is a symmetry, the translation alone is not); thorough: every magnetic structure
                 for rs in (("shell1",) if quick else ("shell1", "lopsided")):
                     for cen in ("sites", "displaced"):
                         out.append({"kind": "sys", "struct": st, "proj": proj, "soc": soc, "rs": rs, "cen": cen,
